@@ -194,6 +194,8 @@ def wire_edit(e, tree_before):
         return [6, e[1], e[2], e[3], 4, layout_tree("align")]
     if k == "del_cap":
         return [7, e[1], e[2]]
+    if k == "poke":
+        return [1, "s:__no_such_selector__", "s:x", "s:x"]       # unknown to the model: a no-op edit
     raise ValueError(k)
 
 
@@ -536,5 +538,5 @@ def describe_history(h):
         elif k == "write":
             out.append("write[%s w%s set%s]" % (op["kind"], op["w"], op["set"]))
         else:
-            out.append("edit[%s set%s]" % (op["edit"][0], op["set"]))
+            out.append("edit[%s set%s]" % (" ".join(str(x) for x in op["edit"][:2]) if op["edit"][0] == "poke" else op["edit"][0], op["set"]))
     return " ; ".join(out)
